@@ -295,7 +295,7 @@ def _formula_mutants():
     picks = eval(re.search(r"^PICKS = (\[.*?^\])", src, re.S | re.M).group(1))
     rows = {}
     for line in subprocess.check_output(["/verif/bin/zrntlint", "formulas"]).decode().splitlines():
-        p = line.split("|")
+        p = line.split("\t")
         if len(p) >= 6:
             rows.setdefault((p[0], p[1]), []).append(p[5])
     n = 0
